@@ -36,7 +36,7 @@ func writeReplay(p *Program, prop string, o *Obligation, frs []*FuncResult) stri
 	if rf.Replay == "confirmed" {
 		o.replayConfirmed = true
 	}
-	path := filepath.Join(verifDir, "replays", prop, sanitize(o.Name)+".json")
+	path := filepath.Join(outDir(), "replays", prop, sanitize(o.Name)+".json")
 	data, _ := json.MarshalIndent(rf, "", " ")
 	os.WriteFile(path, data, 0o644)
 	return path
